@@ -15,11 +15,11 @@
     - Assumed, checked per run by the harness: boost::hash<std::string> is injective on the labels
       that occur (the real map is keyed by the hash of the label).
 
-    Not formalised here (see the final comment): "every result changes only by the induced
+    Only partially formalised (see the last theorem): "every result changes only by the induced
     permutation" for operators and observables.  That part of C18 is covered by differential runs
     of the whole ED chain (harness/h_c18_phys.cpp, checks/C18.py). *)
 Require Import Bool List Arith Permutation.
-From PV Require Import Outcome Index IndexProofs.
+From PV Require Import Outcome Index IndexProofs Fock IndexSem.
 
 (** prepare() returns normally: no null dereference at cpp:72, no write past the vector. *)
 Theorem prepare_total : forall (fixed order_spins : bool) (ss : list site),
@@ -171,13 +171,28 @@ Theorem rename_is_mode_permutation :
 Proof. exact IndexProofs.rename_is_mode_permutation. Qed.
 Print Assumptions rename_is_mode_permutation.
 
-(** NOT STATED AS A THEOREM (left out, not weakened): [sem_permute] --
-      for H a polynomial in c_i, c^+_i over N modes and pi a permutation of 0..N-1, the
-      polynomial with every index i replaced by pi(i) is conjugate to H by the signed permutation
-      of Fock states induced by pi; consequently eigenvalues are equal, <n_pi(i)>' = <n_i> and
-      G'_{pi(i) pi(j)}(z) = G_ij(z).
-    It needs the operator-algebra semantics (PV.Fock / PV.Poly / PolySem, owned by C05) and the
-    linear algebra of unitarily equivalent Hamiltonians.  C18 checks this part by differential
-    runs of the real ED chain on relabelled / re-ordered / mode-switched copies of random small
-    models, comparing eigenvalues, occupancies and G_ij(i w_n) after applying the pi of
-    [rename_is_mode_permutation] computed from the two index tables. *)
+(** PARTIAL: the operator-level part of C18.
+    Full statement (not proved):  [sem_permute] -- for H a polynomial in c_i, c^+_i over N modes
+      and pi a permutation of 0..N-1, the polynomial with every index i replaced by pi(i) is
+      conjugate to H by the signed permutation U_pi of Fock states induced by pi; consequently the
+      eigenvalues are equal, <n_pi(i)>' = <n_i> and G'_{pi(i) pi(j)}(z) = G_ij(z).
+    Proved here: the statement for a single MONOMIAL acting on a basis state (PV.Fock.act_mono, the
+      model of Operator::actRight), for pi given as a product of adjacent transpositions [ks]:
+      U_pi m U_pi^{-1} = pi(m), with U_pi |s> = (-1)^(sign_of ks s) |state_perm ks s>; Pauli zeros
+      and out-of-range indices are preserved.
+    Missing: linear extension to polynomials (needs the polynomial semantics owned by C05), "every
+      permutation is a product of adjacent transpositions", and the linear algebra from conjugate
+      Hamiltonians to permuted observables.  Those steps are covered only by the differential runs
+      of the real ED chain (harness/h_c18_phys.cpp, checks/C18.py): relabelled / re-ordered /
+      mode-switched copies of random small models, eigenvalues, occupancies, <c+_i c_j> and
+      G_ij(i w_n) compared after applying the pi of [rename_is_mode_permutation]. *)
+Theorem sem_permute_monomial_partial : forall (ks : list nat) (m : list Fock.op) (s : Fock.state),
+  (forall k, In k ks -> S k < length s) ->
+  Fock.act_mono (map (IndexSem.perm_op ks) m) (IndexSem.state_perm ks s) =
+  match Fock.act_mono m s with
+  | Done (Some (sg, s')) =>
+    Done (Some (xorb sg (xorb (IndexSem.sign_of ks s) (IndexSem.sign_of ks s')), IndexSem.state_perm ks s'))
+  | r => r
+  end.
+Proof. exact IndexSem.sem_permute_monomial_partial. Qed.
+Print Assumptions sem_permute_monomial_partial.
